@@ -15,6 +15,7 @@ from vp import gen, probe, refmodels as rm, specmodel as sm
 from vp import defaults
 from vp import reuse
 from vp import forms as argforms
+from vp import corners
 
 RULE = ('seeded generator: photon cubes 1..6 wavelengths x (2..24)^2, QE as scalar / vector / Spectrum in nm, um, m, angstrom; '
         'square colour patterns of size 1..4 with random R/G/B content, native image sizes any multiple of the pattern, '
@@ -24,7 +25,7 @@ RULE = ('seeded generator: photon cubes 1..6 wavelengths x (2..24)^2, QE as scal
 ASSUMPTIONS = ['gain polynomial values within 1e-9 (relative) of an integer may floor to either side',
                'beyond 2**53 counts the floor is decided to 4 ulp of the polynomial value (neighbouring doubles are more than one count apart)']
 PLAN = {'quick': {'gen': 8}, 'thorough': {'gen': 16, 'tests': 1, 'docs': 1}}
-REQUIRED_BUCKETS = ['defaults', 'reuse', 'forms', 'qe:scalar', 'qe:vector', 'qe:spectrum', 'qe:offset-table', 'unit:nm', 'unit:um', 'unit:m', 'unit:angstrom', 'bayer:k=1',
+REQUIRED_BUCKETS = ['defaults', 'corners', 'reuse', 'forms', 'qe:scalar', 'qe:vector', 'qe:spectrum', 'qe:offset-table', 'unit:nm', 'unit:um', 'unit:m', 'unit:angstrom', 'bayer:k=1',
                     'bayer:k=2', 'bayer:k=3', 'bayer:k=4', 'bayer:os=1', 'bayer:os=2', 'bayer:os>=3', 'bayer:nonsquare',
                     'bayer:channels', 'bayer:spectrum-qe', 'bayer:unit!=nm', 'gain:scalar', 'gain:poly', 'gain:pixel', 'gain:pixel-poly', 'adc:negative',
                     'adc:saturated', 'adc:dtype', 'adc:warn', 'adc:max==capacity', 'adc:small-int-frame', 'bayer:cube-not-float64', 'adc:beyond-dtype-range', 'adc:capacity=0',
@@ -200,6 +201,7 @@ def workload(ctx, lentil):
     defaults.run(ctx, lentil, 'C16', 'charge=sum')
     reuse.run(ctx, lentil, 'C16', 'charge=sum')
     argforms.run(ctx, lentil, 'C16', 'charge=sum')
+    corners.run(ctx, lentil, 'C16', 'charge=sum')
     rng = ctx.rng
     D = lentil.detector
     R = lentil.radiometry
